@@ -86,6 +86,29 @@ def run(tier, seed):
                                         "what": "decoded header fields differ from the documented layout"})
         d1.add(zlib.crc32(bytes.fromhex(blk)) & 0xFF)
     chk.add_stream("rdhrt", len(blocks), d1, [{"block": blocks[0], "impl": impl[0][:200]}])
+    # ------------------------------------------------------------ stream 1b: the real BufferedWriter with small flush thresholds
+    wcases = []
+    wexp = []
+    for _ in range(400 if deep else 60):
+        n = rng.choice([1, 2, 3, 5, 9, 10, 11, 25, 40])
+        pkts, _ids = scangen.rand_stream(rng, n)
+        data = scangen.serialize(pkts)
+        mx = rng.choice([1, 2, 3, 5, 10, 11, 1000])
+        sizes = ",".join(str(rng.choice([1, 2, 3, 7, 100])) for _ in range(rng.randrange(1, 4)))
+        wcases.append("%d %s %s" % (mx, sizes, data.hex().upper()))
+        wexp.append("%d %08X" % (len(data), zlib.crc32(data) & 0xFFFFFFFF))
+    wimpl = core.run_lines(core.HARNESS_BIN, "writer", wcases)
+    wmodel = core.run_lines(core.FPMODEL, "writer", wcases)
+    dw = set()
+    for c, li, lm, ex in zip(wcases, wimpl, wmodel, wexp):
+        mx, sizes, _ = c.split(" ", 2)
+        dw.add((mx, sizes.count(",")))
+        if li != lm:
+            chk.disagreements.append({"stream": "writer", "case": c[:800], "impl": li, "model": lm})
+        if li != ex:
+            chk.spec_violations.append({"stream": "writer", "flush_threshold": mx, "batch_sizes": sizes, "case": c[:1200], "impl(len crc)": li,
+                                        "spec(len crc)": ex, "what": "bytes written by BufferedWriter are not the pushed packets, once each, in order"})
+    chk.add_stream("writer", len(wcases), dw, [{"case": wcases[0][:200], "impl": wimpl[0], "model": wmodel[0]}])
     # ------------------------------------------------------------ stream 2: end to end through the binary
     tmp = core.scratch_dir("c08")
     jobs = []
@@ -95,6 +118,10 @@ def run(tier, seed):
     for _ in range(reps):
         for n in counts:
             pkts, ids = cli_stream(rng, n)
+            if n in (3, 10):
+                # packets near the upper size limit on every id: a skipped packet of 8..10 KB must be skipped entirely
+                pkts = [(bytes(bytearray(r[:8]) + (64 + sz).to_bytes(2, "little") * 2 + r[12:]), bytes([i & 0xFF]) * sz)
+                        for i, ((r, _p), sz) in enumerate(zip(pkts, [rng.choice([8191, 8192, 8193, 9000, 10000, 100]) for _ in pkts]))]
             data = scangen.serialize(pkts)
             path = os.path.join(tmp, "in%d.raw" % sid)
             with open(path, "wb") as f:
@@ -112,7 +139,7 @@ def run(tier, seed):
                 absent = next(((l << 12) | s) for l in range(7) for s in range(48) if ((l << 12) | s) not in vals)
             for v in vals + [absent]:
                 jobs.append({"sid": sid, "path": path, "pkts": pkts, "flt": "%s:%d" % (kind, v), "present": v != absent,
-                             "out": rng.choice(["file", "stdout"]), "inp": rng.choice(["file", "pipe"]), "data": data, "group": (sid, kind)})
+                             "out": rng.choice(["file", "stdout"]), "inp": "pipe" if n in (3, 10) else rng.choice(["file", "pipe"]), "data": data, "group": (sid, kind)})
             sid += 1
 
     def work(j):
